@@ -800,9 +800,12 @@ fn run_case(entry: &str, inp: &[u8], param: u64, brk: i64) -> String {
 }
 
 /// C15 for Parse-only types: re-parsing the serialized bytes gives an equal object, empty remainder
-fn reparse_parse<'a, T: Parse<'a> + PartialEq>(view: &'a [u8], orig: &T) -> String {
+fn reparse_parse<'a, T: Parse<'a> + PartialEq + Clone + AsRef<[u8]>>(view: &'a [u8], orig: &T) -> String {
+    // a clone is an equal object over the very same bytes
+    let c = orig.clone();
+    let clone_ok = &c == orig && c.as_ref().as_ptr() == orig.as_ref().as_ptr() && c.as_ref().len() == orig.as_ref().len();
     match T::parse(view) {
-        Ok(p) => format!(" x_reparse={}", (p.remaining().is_empty() && p.parsed() == orig) as u8),
+        Ok(p) => format!(" x_reparse={}", (clone_ok && p.remaining().is_empty() && p.parsed() == orig) as u8),
         Err(_) => " x_reparse=0".to_string(),
     }
 }
